@@ -48,7 +48,7 @@ static FILE *real_out;
 static char *mbuf;
 static size_t mlen, safe_len;
 static volatile int in_event;
-static int fork_mode = 1, is_child = 0;
+static int fork_mode = 1, is_child = 0, risky = 0;
 
 static void ev_begin(const char *op) {
 	mbuf = NULL; mlen = 0; safe_len = 0;
@@ -71,7 +71,7 @@ static void ev_end(void) {
  * and exits; the parent waits.  If the child dies (fatal signal, watchdog) the parent - whose memory
  * the faulty call could not touch - publishes the inputs as an event of the SAME op with
  * "crash":<signal> (the spec judges it: never accepted) and goes on with the next case.
- * A fifth argument "nofork" (or VH_NOFORK=1) runs everything in one process (then a crash ends the process: see fb_fatal). */
+ * A fifth argument "nofork" forks only for a few routines; VH_NOFORK=1 runs everything in one process (then a crash ends the process: see fb_fatal). */
 static char safe_buf[1 << 20];
 static jmp_buf case_jmp;
 static void fork_point(void) {
@@ -103,7 +103,7 @@ static void fork_point(void) {
 	longjmp(case_jmp, 1);
 }
 #define MARK() do { fflush(vh_out); safe_len = mlen < sizeof(safe_buf) ? mlen : 0; memcpy(safe_buf, mbuf, safe_len); \
-	if (fork_mode) fork_point(); } while (0)
+	if (fork_mode == 1 || (fork_mode == 2 && risky)) fork_point(); } while (0)
 
 static void fb_fatal(int sig) {
 	char buf[200];
@@ -128,7 +128,7 @@ static void fb_install(void) {
 	sigaltstack(&ss, NULL);
 	memset(&sa, 0, sizeof(sa));
 	sa.sa_handler = fb_fatal;
-	sa.sa_flags = SA_ONSTACK | SA_NODEFER;
+	sa.sa_flags = SA_ONSTACK | SA_NODEFER | SA_RESETHAND;   /* a second fault (inside the handler) ends the process */
 	for (i = 0; i < 6; i++) sigaction(sigs[i], &sa, NULL);
 	return;
 	signal(SIGSEGV, fb_fatal); signal(SIGBUS, fb_fatal); signal(SIGFPE, fb_fatal);
@@ -830,6 +830,7 @@ static int run_case(void) {
 	int al = vh_ntok > 2 ? atoi(vh_tok[2]) : 0;
 	int ok = ensure_sel(sel);
 	int curve_op = (strncmp(op, "eb_", 3) == 0);
+	risky = strcmp(op, "fb_rdc_basic") == 0 || strncmp(op, "eb_mul_sim", 10) == 0 || strncmp(op, "fb_exp", 6) == 0;
 #define OP(n) (strcmp(op, n) == 0)
 	if (!ok || (curve_op && !have_curve)) {
 		ev_begin("BADSEL"); vh_str("sel", sel); vh_str("for", op); ev_end();
@@ -996,7 +997,9 @@ int main(int argc, char **argv) {
 	}
 	in = vh_open(argc, argv, &start);
 	real_out = vh_out;
-	if (getenv("VH_NOFORK") || (argc > 4 && strcmp(argv[4], "nofork") == 0)) fork_mode = 0;
+	if (getenv("VH_NOFORK")) fork_mode = 0;
+	/* "nofork": bulk runs (tiny worlds) fork only for the routines known to be able to corrupt memory */
+	if (argc > 4 && strcmp(argv[4], "nofork") == 0) fork_mode = 2;
 	fb_install();
 	if (core_init() != RLC_OK) return 2;
 #if RAND == CALL
